@@ -46,6 +46,16 @@
 (* engine calculates at the end of the bundle): lo = 1, hi = their number. *)
 (* An evaluation of a column that depends on itself changes one of its own *)
 (* recalcDeps cells; the property puts no bound on what follows: hi = BIG. *)
+(*                                                                         *)
+(* Clauses (Failures names the failing row and column):                    *)
+(*   C15.must     a due recalculation did not happen (cell < b + lo)       *)
+(*   C15.kept     a supplied value was not kept                            *)
+(*   C15.mustnot  a DEFAULT / MANUAL cell changed with no admissible cause *)
+(*   C15.never    a NEVER cell changed                                     *)
+(*   C15.schema   a cell changed in a bundle of schema changes only        *)
+(*   C15.bind     rows, A, B or F are not what the actions wrote: the      *)
+(*                record does not fit the model (nothing can be concluded) *)
+(*   C15.scope    configuration or bundle outside the model                *)
 (***************************************************************************)
 EXTENDS Integers, Sequences, FiniteSets
 
@@ -55,7 +65,6 @@ MANUAL  == 2
 BIG     == 100000          \* "no upper bound" on the number of evaluations
 
 Range(s)         == {s[i] : i \in 1..Len(s)}
-Mark(cond, name) == IF cond THEN {} ELSE {name}
 Min2(x, y)       == IF x <= y THEN x ELSE y
 
 \* TLC passes operator arguments and LET definitions unevaluated and may evaluate them again at
